@@ -117,7 +117,7 @@ impl Property for C02 {
     const ID: &'static str = "C02";
 
     fn families(_tier: Tier) -> u32 {
-        12
+        13
     }
 
     fn strategy(tier: Tier, family: u32) -> BoxedStrategy<Case> {
@@ -141,6 +141,38 @@ impl Property for C02 {
             6 | 7 => mk(data_strategy(5, tier.pick(30_000, 300_000)), lz(max_dict)),
             8 | 9 => multi_unit_case(multi_unit_data(), lz(16_384)),
             // tiny inputs incl. empty
+            // more than 127 blocks / members: multi-byte record count in the XZ index, long member lists
+            12 => (
+                (520_000u32..700_000, any::<u64>(), 1u16..400, any::<bool>()),
+                prop_oneof![xz(4096), lz(4096)],
+                read_sizes_strategy(),
+                prop_oneof![Just(4096u32), Just(4095), 1000u32..9000],
+            )
+                .prop_map(|((len, seed, period, text), mut kind, sizes, piece)| {
+                    let data = Data {
+                        segs: vec![if text { Seg::Text { len, seed } } else { Seg::Periodic { len, period, seed } }],
+                    };
+                    match &mut kind {
+                        Kind::Xz(c) => {
+                            c.filters.retain(|f| !f.is_bcj());
+                            c.opts.dict_size = 4096;
+                            c.opts.mode = 0;
+                            c.block = Some(4096);
+                        }
+                        Kind::Lzip(c) => {
+                            c.opts.dict_size = 4096;
+                            c.opts.mode = 0;
+                            c.member = Some(4096);
+                        }
+                    }
+                    Case {
+                        data,
+                        kind,
+                        plan: Plan::Fixed(piece),
+                        sizes,
+                    }
+                })
+                .boxed(),
             10 => mk(
                 prop_oneof![Just(Data::default()), data_strategy(1, 3)].boxed(),
                 prop_oneof![xz(1 << 20), lz(1 << 20)].boxed(),
@@ -160,6 +192,7 @@ impl Property for C02 {
     fn floors(_tier: Tier) -> Vec<(&'static str, f64)> {
         vec![
             ("multi_unit", 15.0),
+            ("units_128_plus", 2.0),
             ("filters", 15.0),
             ("check_none", 5.0),
             ("check_crc32", 5.0),
@@ -210,6 +243,7 @@ impl Property for C02 {
                 let representable = d.is_power_of_two() || (d % 3 == 0 && (d / 3).is_power_of_two());
                 obs.class_if(!representable, "dict_not_representable");
                 obs.class_if(blocks >= 2, "multi_unit");
+                obs.class_if(blocks >= 128, "units_128_plus");
                 obs.class_if(!cfg.filters.is_empty(), "filters");
                 obs.nontrivial = blocks >= 2 || (!cfg.filters.is_empty() && data.len() >= 16) || (!representable && !data.is_empty());
                 match decode_xz(&packed, false, &case.sizes, cap)? {
@@ -247,6 +281,7 @@ impl Property for C02 {
                 }
                 obs.class_if(!representable, "dict_not_representable");
                 obs.class_if(w.members.len() >= 2, "multi_unit");
+                obs.class_if(w.members.len() >= 128, "units_128_plus");
                 obs.nontrivial = w.members.len() >= 2 || (!representable && data.len() > 16);
                 match decode_lzip(&packed, &case.sizes, cap)? {
                     Ok(out) if out == data => Ok(()),
